@@ -101,8 +101,9 @@ type Frame struct {
 	callStack []string
 	resultNames []string
 	resultTypes []types.Type
-	frameHook func(lv *LV, addr ssa.Value, pos token.Pos)
-	frameMapHook func(mv ssa.Value, m T, mt *types.Map, pos token.Pos)
+	frameHook func(cur *Frame, lv *LV, addr ssa.Value, pos token.Pos)
+	frameMapHook func(cur *Frame, mv ssa.Value, m T, mt *types.Map, pos token.Pos)
+	frameCallHook func(cur *Frame, callee string, ms ModSet, calleeLocs []assignLoc, hasAssigns bool, tr *Translator, pos token.Pos)
 }
 
 type nameRef struct {
@@ -133,7 +134,34 @@ func (f *Frame) stGet(name string, sort Sort) T {
 	}
 	f.enc.stateSort[name] = sort
 	t := f.enc.declConst(name+"@0", sort)
+	f.refWf(name, t, f.enc.declConst("alloc@0", SInt))
 	return t
+}
+
+// refWf: references stored in a (havoced or initial) heap array predate its allocation bound.
+func (f *Frame) refWf(name string, arr T, bound T) {
+	if !strings.HasPrefix(name, "H_") {
+		return
+	}
+	key := "wf:" + arr.S
+	if f.enc.wfDone[key] {
+		return
+	}
+	ft := f.p.fieldTypeByArray(name)
+	if ft == nil {
+		return
+	}
+	var body string
+	switch ft.Underlying().(type) {
+	case *types.Slice:
+		body = fmt.Sprintf("(<= (sptr (select %s r!w)) %s)", arr.S, bound.S)
+	case *types.Pointer, *types.Map:
+		body = fmt.Sprintf("(and (<= 0 (select %s r!w)) (<= (select %s r!w) %s))", arr.S, arr.S, bound.S)
+	default:
+		return
+	}
+	f.enc.wfDone[key] = true
+	f.enc.addFact(arr.S, fmt.Sprintf("(assert (forall ((r!w Int)) (! %s :pattern ((select %s r!w)))))", body, arr.S))
 }
 
 func stLookup(e *Enc, st State, name string) T {
@@ -153,6 +181,20 @@ func (f *Frame) stSet(name string, t T) {
 		t = f.enc.define(name+"@", t)
 	}
 	f.st[name] = t
+	if name != "alloc" {
+		f.enc.verAlloc[t.S] = f.alloc()
+	}
+}
+
+// boundOf: allocation counter bounding every reference stored in this version of a state array.
+func (f *Frame) boundOf(arr T) T {
+	if b, ok := f.enc.verAlloc[arr.S]; ok {
+		return b
+	}
+	if strings.HasSuffix(strings.Trim(arr.S, "|"), "@0") {
+		return f.enc.declConst("alloc@0", SInt)
+	}
+	return f.alloc()
 }
 
 func (f *Frame) alloc() T { return f.stGet("alloc", SInt) }
@@ -581,6 +623,13 @@ func (f *Frame) enterBlock(b *ssa.BasicBlock) bool {
 	}
 	f.path = f.enc.define(f.sym(fmt.Sprintf("B%d", b.Index)), Or(eps...))
 	f.st = f.mergeStates(preds, b)
+	for k, v := range f.st {
+		if k != "alloc" {
+			if _, ok := f.enc.verAlloc[v.S]; !ok && !strings.HasSuffix(strings.Trim(v.S, "|"), "@0") {
+				f.enc.verAlloc[v.S] = f.alloc()
+			}
+		}
+	}
 	if li := f.loops[b]; li != nil {
 		f.loopHeader(li, preds)
 		return true
@@ -690,6 +739,12 @@ func (f *Frame) loopHeader(li *loopInfo, preds []*ssa.BasicBlock) {
 	}
 	li.stAtHeader = f.st.clone()
 	li.allocAtHdr = f.alloc()
+	for k, v := range f.st {
+		if k != "alloc" && strings.Contains(v.S, "@L") {
+			f.enc.verAlloc[v.S] = f.alloc()
+			f.refWf(k, v, f.alloc())
+		}
+	}
 	// 3. assume invariant
 	for _, inv := range li.spec.Invs {
 		tr := f.translator(b, li.phiSyms, f.st, li)
